@@ -293,6 +293,7 @@ class Sim:
         self.close_events = []  # (step, owner, peer)
         self.write_events = 0
         self._chunk_i = 0
+        self._delivered = {}  # bytes moved from wire to arrived per connection (for message-wise delivery)
         self._saved = None
         # cli_threshold: threshold given "on the command line" (options.threshold); when it differs from
         # t the program assigns mpc.threshold = t before start, as e.g. demos/parallelsort.py does
@@ -529,10 +530,24 @@ class Sim:
             return False
         return bool(self.wire[i, j]) or self.eof.get((i, j)) == 'pending'
 
-    def _next_chunk(self, avail):
+    def _next_chunk(self, avail, conn=None):
         chunks = self.schedule.get('chunks') or [0]
         c = chunks[self._chunk_i % len(chunks)]
         self._chunk_i += 1
+        if c == -1 and conn is not None:
+            # message-wise delivery: exactly the next complete message (the opening handshake counts as one), so
+            # that every single message can be delayed on its own by the scheduler
+            i, j = conn
+            w = self.wire[i, j]
+            done = self._delivered.get(conn, 0)
+            hs = handshake_len(self.m, self.t, self.prss, i, j) if i < j else 0
+            if done < hs:
+                n = hs - done
+            elif len(w) >= 12:
+                n = 12 + struct.unpack_from('<I', w, 8)[0]
+            else:
+                n = avail
+            return min(n, avail)
         if c <= 0 or c > avail:
             return avail
         return c
@@ -543,7 +558,8 @@ class Sim:
             _, i, j = e
             w = self.wire[i, j]
             if w:
-                n = self._next_chunk(len(w))
+                n = self._next_chunk(len(w), (i, j))
+                self._delivered[i, j] = self._delivered.get((i, j), 0) + n
                 self.arrived[i, j] += w[:n]
                 del w[:n]
             elif self.eof.get((i, j)) == 'pending':
